@@ -256,6 +256,7 @@ type c09op struct {
 	nid  int
 	addr string
 	fail bool
+	late time.Duration // lookup only: first move the clock to this long before (after, if negative) the end of the record's waiting period
 }
 
 type c09ent struct {
@@ -269,6 +270,13 @@ type c09ent struct {
 	removed bool
 	regNode int
 }
+
+// c09TTLs: waiting periods incl. ones that are not whole seconds (a backend that keeps its own
+// lifetime for the record must honour the fraction) and one below a second. Index 0 is the production value.
+var c09TTLs = []time.Duration{30 * time.Second, time.Second, 0, 2500 * time.Millisecond, 30400 * time.Millisecond, 1500 * time.Millisecond, 750 * time.Millisecond, 1999 * time.Millisecond}
+
+// c09Lates: how long before (positive) or after (negative) the end of a record's waiting period a "late" lookup is placed
+var c09Lates = []time.Duration{53 * time.Millisecond, 7 * time.Millisecond, 211 * time.Millisecond, 430 * time.Millisecond, 947 * time.Millisecond, -7 * time.Millisecond, -611 * time.Millisecond}
 
 var c09Advances = []time.Duration{137 * time.Millisecond, 412 * time.Millisecond, 703 * time.Millisecond, 1301 * time.Millisecond, 9707 * time.Millisecond, 14903 * time.Millisecond, 31307 * time.Millisecond}
 
@@ -308,6 +316,11 @@ func c09GenPlan(c *simrt.Choice, nn, nslots int, faults, mutate bool) []c09op {
 		}
 		if faults && o.kind != "advance" && o.kind != "mutate" {
 			o.fail = c.Chance(1, 6, "op.fail")
+		}
+		if o.kind == "lookup" && !o.fail {
+			if l := c.Intn(3*len(c09Lates), "op.late"); l >= 2*len(c09Lates) {
+				o.late = c09Lates[l-2*len(c09Lates)]
+			}
 		}
 		plan = append(plan, o)
 	}
@@ -437,6 +450,18 @@ func c09RunPlan(w *simrt.World, cw *c09world, plan []c09op, ids, nodeIDs []strin
 			}
 			out = append(out, "remove")
 		case "lookup":
+			if e := model[o.tid]; o.late != 0 && e != nil && e.present {
+				// place this lookup in the last part of (or just after) the record's waiting period
+				if d := e.exp.Add(-o.late).Sub(time.Now()); d > 0 {
+					w.Sleep(d)
+					note(fmt.Sprintf("+%v (to %v before the end of t%d's waiting period)", d, o.late, o.tid))
+					if o.late > 0 {
+						w.Probe("A.lookup.late-in-waiting-period")
+					} else {
+						w.Probe("A.lookup.just-after-waiting-period")
+					}
+				}
+			}
 			b := arm()
 			now := time.Now()
 			got, err := n.rt.LookupWaitingTunnel(w.Ctx, id)
@@ -588,7 +613,7 @@ func c09Sequential(w *simrt.World) {
 	c := w.C
 	bsel := c.Intn(6, "backend")
 	nn := 2 + c.Intn(2, "nodes")
-	ttl := []time.Duration{30 * time.Second, time.Second, 0}[c.Intn(3, "ttl")]
+	ttl := c09TTLs[c.Intn(len(c09TTLs), "ttl")]
 	nslots := 1 + c.Intn(5, "tunnels")
 	faults := c.Intn(3, "faults.on") == 2
 	mutate := c.Intn(4, "caller.mutates") == 3
@@ -689,7 +714,7 @@ func c09Concurrent(w *simrt.World) {
 	nn := 2 + c.Intn(2, "nodes")
 	nslots := 1 + c.Intn(2, "tunnels")
 	per := 2 + c.Intn(4, "ops.per.node")
-	ttl := []time.Duration{30 * time.Second, time.Second, 0}[c.Intn(3, "ttl")]
+	ttl := c09TTLs[c.Intn(len(c09TTLs), "ttl")]
 	eff := c09EffTTL(ttl)
 	rounds := 1 + c.Intn(3, "rounds")
 	nodeIDs := c09NodeIDs(c, nn)
@@ -948,7 +973,7 @@ func c09Lifecycle(w *simrt.World) {
 	w.SetCrashSentinel(simstore.Crash)
 	be := c09Backends[c.Intn(4, "backend")]
 	nn := 2 + c.Intn(2, "nodes")
-	ttl := []time.Duration{30 * time.Second, 30 * time.Second, 0, time.Second}[c.Intn(4, "ttl")]
+	ttl := []time.Duration{30 * time.Second, 30 * time.Second, 0, time.Second, 2500 * time.Millisecond, 30400 * time.Millisecond, 1500 * time.Millisecond}[c.Intn(7, "ttl")]
 	eff := c09EffTTL(ttl)
 	nodeIDs := c09NodeIDs(c, nn)
 	ntun := 1 + c.Intn(3, "tunnels")
@@ -1010,6 +1035,13 @@ func c09Lifecycle(w *simrt.World) {
 	for i := range cpInstants {
 		if cpSet[i] {
 			cps = append(cps, cpInstants[i])
+		}
+	}
+	if l := c.Intn(8, "checkpoint.late"); l >= 4 {
+		// one more checkpoint in the last part of the first tunnel's waiting period (it opens startDelay after the start)
+		if at := tuns[0].startDelay + eff - c09Lates[l-4]; at > 0 {
+			cps = append(cps, at)
+			sort.Slice(cps, func(i, j int) bool { return cps[i] < cps[j] })
 		}
 	}
 
@@ -1478,9 +1510,9 @@ func init() {
 	Register(&Scenario{
 		ID:    "C09",
 		Level: "exploration",
-		Rule: "each run draws a mode. (A, 4/9) 2-3 nodes with real RoutingTables over one shared backend drawn from {memory, redis(miniredis), tiered hybrid with shared redis, tiered hybrid with shared memory, or the same plan on memory+redis+tiered compared outcome by outcome}; waiting period drawn from {30s, 1s, 0=default}; 1-5 tunnel ids and all record fields from a hostile valid-UTF-8 generator (empty, 1 byte, 64 KiB, NUL, U+2028, JSON text, quotes/backslashes, key-like text) and int64/int extremes; a plan of 8-35 operations register / lookup / remove / clock advance (never within 2 ms of an expiry) / RegisterNodeAddress / GetNodeAddress from drawn nodes, optionally storage failures on drawn operations and a caller that edits its own struct after Register returned; each lookup is compared field by field and instant by instant with a reference table (resolves iff registered, not removed, now < registration + waiting period). " +
-			"(B, 2/9) 1-3 rounds on one world (backend and waiting period {30s,1s,default} drawn): before a round the store is drawn from {left as is, every id registered by a drawn node and the whole waiting period then passes so lapsed records lie unread in the backend, every id registered just before}; between rounds the whole waiting period passes (the previous round's records lapse in place); in a round one task per node issues 2-5 register/lookup/remove operations on 1-2 ids concurrently, interleaved at every lock, storage operation and statement of routing.go and of the backends, followed by one sequential closing lookup per id from a drawn node; each round's history (pre-registrations + concurrent operations + closing lookups, starting from 'nothing resolves') is checked for linearizability. " +
-			"(C, 3/9) one real SessionManager per node with a stub mapping directory; 1-3 tunnels opened through the real startSourceBridge on drawn nodes at drawn instants (optionally the same tunnel id opened again through another node), ending by the 30 s bridge timeout, bridge close, target-ready then close, crash of the source node (its storage handle is fenced), a close issued by a second task as soon as the bridge exists (possibly before startSourceBridge has returned), or a graceful shutdown of the source node's SessionManager; the delay before an end is drawn from {0 = same simulated instant, so the end races at statement granularity with whatever the open left running, 11 ms, 403 ms, 3.1 s, 12.3 s}; 3 ms after every lifecycle end every live node looks the id up directly (must not resolve); 1-4 target-side calls of the real polling lookupTunnelRouting on drawn nodes at drawn instants; 1-6 checkpoints (drawn instants between 5 ms and 62 s) where every live node looks every id up directly; optional storage faults (deletes fail with probability 1/2, or reads fail with probability 1/4); in the tail, after all lifecycles ended and all waiting periods lapsed, no node may resolve any id, including through a replayed polling lookup. " +
+		Rule: "each run draws a mode. (A, 4/9) 2-3 nodes with real RoutingTables over one shared backend drawn from {memory, redis(miniredis), tiered hybrid with shared redis, tiered hybrid with shared memory, or the same plan on memory+redis+tiered compared outcome by outcome}; waiting period drawn from {30s, 1s, 0=default, 2.5s, 30.4s, 1.5s, 750ms, 1.999s} (not only whole seconds: every backend must carry the record for the whole period); 1-5 tunnel ids and all record fields from a hostile valid-UTF-8 generator (empty, 1 byte, 64 KiB, NUL, U+2028, JSON text, quotes/backslashes, key-like text) and int64/int extremes; a plan of 8-35 operations register / lookup / remove / clock advance (never within 2 ms of an expiry) / lookups placed 7-947 ms before or 7-611 ms after the end of the looked-up record's waiting period / RegisterNodeAddress / GetNodeAddress from drawn nodes, optionally storage failures on drawn operations and a caller that edits its own struct after Register returned; each lookup is compared field by field and instant by instant with a reference table (resolves iff registered, not removed, now < registration + waiting period). " +
+			"(B, 2/9) 1-3 rounds on one world (backend and waiting period drawn as in A): before a round the store is drawn from {left as is, every id registered by a drawn node and the whole waiting period then passes so lapsed records lie unread in the backend, every id registered just before}; between rounds the whole waiting period passes (the previous round's records lapse in place); in a round one task per node issues 2-5 register/lookup/remove operations on 1-2 ids concurrently, interleaved at every lock, storage operation and statement of routing.go and of the backends, followed by one sequential closing lookup per id from a drawn node; each round's history (pre-registrations + concurrent operations + closing lookups, starting from 'nothing resolves') is checked for linearizability. " +
+			"(C, 3/9) one real SessionManager per node with a stub mapping directory; 1-3 tunnels opened through the real startSourceBridge on drawn nodes at drawn instants (optionally the same tunnel id opened again through another node), ending by the 30 s bridge timeout, bridge close, target-ready then close, crash of the source node (its storage handle is fenced), a close issued by a second task as soon as the bridge exists (possibly before startSourceBridge has returned), or a graceful shutdown of the source node's SessionManager; the delay before an end is drawn from {0 = same simulated instant, so the end races at statement granularity with whatever the open left running, 11 ms, 403 ms, 3.1 s, 12.3 s}; 3 ms after every lifecycle end every live node looks the id up directly (must not resolve); 1-4 target-side calls of the real polling lookupTunnelRouting on drawn nodes at drawn instants; waiting period from {30s, default, 1s, 2.5s, 30.4s, 1.5s}; 1-6 checkpoints (drawn instants between 5 ms and 62 s, optionally one more 7-430 ms before the end of the first tunnel's waiting period) where every live node looks every id up directly; optional storage faults (deletes fail with probability 1/2, or reads fail with probability 1/4); in the tail, after all lifecycles ended and all waiting periods lapsed, no node may resolve any id, including through a replayed polling lookup. " +
 			"Non-trivial: (A) a lookup from a node other than the registering one resolved AND the history contains a removal or expiry of a registered id or a re-registration from another node; (B) two operations of different nodes on the same id overlapped, at least one a write; (C) a lookup from a node other than the source node resolved AND at least one tunnel lifecycle ended before the run's tail. Distinct = distinct schedule hashes / abstract states (backend x waiting-count x resolves x duplicates; for B backend x state of the store at round start x overlap).",
 		Real: []string{"internal/protocol/session/tunnel RoutingTable (Register/Lookup/RemoveWaitingTunnel, Register/GetNodeAddress)", "internal/protocol/session SessionManager.startSourceBridge, runBridgeLifecycle, lookupTunnelRouting, tunnel.Bridge (Start/Close/NotifyTargetReady)",
 			"internal/core/storage/memory", "internal/core/storage/redis over go-redis", "internal/core/storage/hybrid (DefaultConfig, shared cache)", "miniredis (real command + TTL semantics) in the bubble"},
